@@ -16,7 +16,7 @@ use std::sync::atomic::{AtomicI64, Ordering};
 use std::sync::{Arc, Condvar, Mutex};
 use std::time::Duration;
 
-pub const RULE: &str = "an in-process WebSocket connection (duplex) to a server with per-connection cap C in {1..16, unlimited}; C gate-controlled off-reader requests are sent and the harness waits until all C handlers signalled that they are running (saturation is observed, not timed); then E extra requests and notifies are sent at the cap, inline requests are interleaved, the parked handlers are released in a generated order (all permutations for C<=3 in the exhaustive sub-check) with generated exit kinds {return, error, panic}, and finally C fresh requests are sent; oracle: the in-handler gauge never exceeds C, each request at the cap is answered ResourceExhausted before any gate is released, a notify at the cap never runs, inline requests are answered during saturation, every released handler's caller gets its own response (a panic as InternalError with that request's id), all C fresh requests are admitted afterwards (no leaked slot), one more request is then refused again (the cap did not grow), and the connection still answers; outbound queue capacities default, 1..3 and C; with and without a forwarding middleware; non-trivial = saturation reached and at least one non-return exit; distinct = case hash";
+pub const RULE: &str = "an in-process WebSocket connection (duplex) to a server with per-connection cap C in {1..16, unlimited}; C gate-controlled off-reader requests are sent and the harness waits until all C handlers signalled that they are running (saturation is observed, not timed); then E extra requests and notifies are sent at the cap, inline requests are interleaved, the parked handlers are released in a generated order (all permutations for C<=3 in the exhaustive sub-check) with generated exit kinds {return, error, panic}, and finally C fresh requests are sent; oracle: the in-handler gauge never exceeds C, each request at the cap is answered ResourceExhausted before any gate is released, a notify at the cap never runs, inline requests are answered during saturation, every released handler's caller gets its own response (a panic as InternalError with that request's id), all C fresh requests are admitted afterwards (no leaked slot), one more request is then refused again (the cap did not grow), and the connection still answers; outbound queue capacities default, 1..3 and C; with and without a forwarding middleware (attached before or after the routes); a second connection to the same server keeps its own slots while the first is saturated; non-trivial = saturation reached and at least one non-return exit; distinct = case hash";
 
 #[derive(Debug, Clone, Copy, Serialize, Deserialize, Hash, PartialEq, Eq)]
 pub enum Exit {
@@ -40,6 +40,13 @@ pub struct Case {
     /// outbound queue capacity of the connection (0 = the server's default)
     #[serde(default)]
     pub outbound_capacity: u8,
+    /// the middleware (if any) is attached after the routes were registered
+    #[serde(default)]
+    pub middleware_after: bool,
+    /// while the first connection is saturated, a second connection to the same server
+    /// sends an off-reader request of its own (the cap is per connection)
+    #[serde(default)]
+    pub second_connection: bool,
 }
 
 #[derive(Default)]
@@ -80,18 +87,21 @@ impl Gates {
     }
 }
 
-fn router(gates: Arc<Gates>, middleware: bool) -> Router {
+fn router(gates: Arc<Gates>, middleware: bool, middleware_after: bool) -> Router {
     let g = gates.clone();
     let mut r = Router::new();
-    if middleware {
+    if middleware && !middleware_after {
         r = r.with_middleware(|req: &Message, next: Next<'_>| next.run(req));
     }
-    r.with_json_blocking("/gate", move |v: Value| {
+    let r = r.with_json_blocking("/gate", move |v: Value| {
         let i = v.get("i").and_then(Value::as_u64).unwrap_or(0);
         let exit = v.get("exit").and_then(Value::as_u64).unwrap_or(0);
-        let now = g.gauge.fetch_add(1, Ordering::SeqCst) + 1;
-        g.max_gauge.fetch_max(now, Ordering::SeqCst);
-        let _guard = GaugeGuard(&g);
+        // (the gauge is the first connection's: requests of the second connection, i >= 5000, have their own cap)
+        let _guard = (i < 5000).then(|| {
+            let now = g.gauge.fetch_add(1, Ordering::SeqCst) + 1;
+            g.max_gauge.fetch_max(now, Ordering::SeqCst);
+            GaugeGuard(&g)
+        });
         g.started.lock().unwrap().push(i);
         g.started_cv.notify_all();
         // park until released (30 s safety net so a broken harness cannot wedge a blocking thread forever)
@@ -111,7 +121,13 @@ fn router(gates: Arc<Gates>, middleware: bool) -> Router {
             _ => panic!("gate {i} panics"),
         }
     })
-    .with_json("/inline", |v: Value| Ok(json!({"inline": v})))
+    .with_json("/inline", |v: Value| Ok(json!({"inline": v})));
+    // a middleware attached after the routes wraps them just the same
+    if middleware && middleware_after {
+        r.with_middleware(|req: &Message, next: Next<'_>| next.run(req))
+    } else {
+        r
+    }
 }
 
 fn watchdog() -> Duration {
@@ -155,13 +171,14 @@ pub fn check(c: &Case) -> CheckResult {
     let n = c.exits.len();
     let cap = if unlimited { n } else { c.cap as usize };
     ensure!(n == cap || unlimited, "generator-bug", "exits must have cap entries");
-    let mut server = WebSocketServer::new(router(gates.clone(), c.middleware)).with_offreader_limit(c.cap as usize);
+    let mut server = WebSocketServer::new(router(gates.clone(), c.middleware, c.middleware_after)).with_offreader_limit(c.cap as usize);
     if c.outbound_capacity > 0 {
         // a parked handler must not hold on to any of the (few) outbound slots
         server = server.with_outbound_capacity(c.outbound_capacity as usize);
     }
     let shared = server.into_shared();
     let g = gates.clone();
+    let shared2 = shared.clone();
     let res: Result<bool, Fail> = block_on(async move {
         let conn = dws::connect(&shared, 1 << 16).await;
         let mut io = conn.io;
@@ -236,6 +253,33 @@ pub fn check(c: &Case) -> CheckResult {
             }
             f
         })?;
+        // 3b. the cap is per connection: another connection to the same server gets its
+        // own slots while this one is saturated
+        if c.second_connection && !unlimited {
+            let conn2 = dws::connect(&shared2, 1 << 16).await;
+            let mut io2 = conn2.io;
+            io2.send(&gate_req(5000, 5000, Exit::Return, false)).await.map_err(|e| Fail::new("harness-send", e.to_string()))?;
+            let g3 = g.clone();
+            let ran = tokio::task::spawn_blocking(move || g3.wait_started(&[5000], watchdog())).await.unwrap();
+            if !ran {
+                // was it refused?
+                let refused = matches!(tokio::time::timeout(Duration::from_millis(300), io2.recv()).await, Ok(Ok(Some(f))) if f.header.ec == ErrorCode::ResourceExhausted as u32);
+                return Err(Fail::new(
+                    "cap-shared-across-connections",
+                    format!(
+                        "connection A holds its {} slots; an off-reader request on idle connection B did not run within {:?} (answered ResourceExhausted: {refused})",
+                        c.cap,
+                        watchdog()
+                    ),
+                ));
+            }
+            g.release(5000);
+            let mut stash2: HashMap<u64, Frame> = HashMap::new();
+            let f = recv_by_id(&mut io2, &mut stash2, 5000, "the second connection's response").await?;
+            ensure!(f.header.ec == 0, "wrong-response", "second connection's request answered ec {}", f.header.ec);
+            io2.close().await;
+            let _ = tokio::time::timeout(watchdog(), conn2.server).await;
+        }
         // 4. release in the generated order; each caller gets its own response
         if unlimited {
             // with no cap the "extra" requests were admitted as well: release them first
@@ -424,9 +468,11 @@ fn case() -> BoxedStrategy<Case> {
                 0u8..4,
                 Just(middleware),
                 prop_oneof![2 => Just(0u8), 2 => 1u8..=3, 1 => Just(cap.max(1))],
+                any::<bool>(),
+                prop::bool::weighted(0.4),
             )
         })
-        .prop_map(|(cap, exits, release, extra_requests, extra_notifies, inline_during, middleware, outbound_capacity)| Case {
+        .prop_map(|(cap, exits, release, extra_requests, extra_notifies, inline_during, middleware, outbound_capacity, middleware_after, second_connection)| Case {
             cap,
             exits,
             release,
@@ -435,6 +481,8 @@ fn case() -> BoxedStrategy<Case> {
             inline_during,
             middleware,
             outbound_capacity,
+            middleware_after,
+            second_connection,
         })
         .boxed()
 }
@@ -471,6 +519,8 @@ fn exhaustive() -> Vec<Case> {
                     inline_during: 1,
                     middleware: code % 2 == 0,
                     outbound_capacity: [0, 1, cap][(code / 2) % 3],
+                    middleware_after: (code / 6) % 2 == 1,
+                    second_connection: code % 3 == 0,
                 });
             }
         }
